@@ -47,6 +47,10 @@ def run(ctx):
                 ctx.drift("draw at bound %d: %s" % (n, why[6:]))
             else:
                 raise Undecided("%s at %s:%d" % (why, f, b["l"]))
+    # (iii) every random choice of every generator goes through the bounded draw
+    import random
+    drawfam_opaque = __import__("checks.drawfam", fromlist=["opaque_reads"]).opaque_reads
+    drawfam_opaque(ctx, random.Random(ctx.seed), 65536 if quick else 262144)
     # (c) the counting statement measured on the real code
     plan = [(62, 1, "alphabet size of letters+digits"), (64, 1, "power of two (mask path)"), (18325, 1, "shipped word list size"),
             (62, 2, "continuation after a rejected word")]
